@@ -49,6 +49,7 @@ type Options struct {
 	DispatchMaintenanceInterval time.Duration
 	DispatchStartDelay          time.Duration
 	PerAlertNameLimit           int
+	Features                    string // --enable-feature list
 	MaxSilences                 int
 	MaxSilenceSizeBytes         int
 	GetConcurrency              int
@@ -88,6 +89,8 @@ type RealCluster struct {
 	ProbeInterval  time.Duration
 	SettleTimeout  time.Duration
 	TLSConfigFile  string // --cluster.tls-config: gossip over the TLS transport
+	// ReconnectInterval (--cluster.reconnect-interval; 0 = the application's default, 10 s)
+	ReconnectInterval time.Duration
 }
 
 // Outcome of one scripted delivery attempt.
@@ -225,7 +228,10 @@ func (l *Log) Snapshot() []Event {
 type Instance struct {
 	// GoneClient, while set, makes every request arrive with an already cancelled context.
 	GoneClient atomic.Bool
-	deafDelay  atomic.Int64
+
+	flushMu       sync.Mutex
+	flushAttempts map[string]int
+	deafDelay     atomic.Int64
 
 	Name string
 	Opts Options
@@ -322,6 +328,13 @@ func Start(o Options) (*Instance, error) {
 	ao.Logger = discardLogger(o.Debug)
 	ao.Registerer = in.Reg
 	ao.Flagger = featurecontrol.NoopFlags{}
+	if o.Features != "" {
+		ff, err := featurecontrol.NewFlags(ao.Logger, o.Features)
+		if err != nil {
+			return nil, fmt.Errorf("feature flags %q: %w", o.Features, err)
+		}
+		ao.Flagger = ff
+	}
 	if rc := o.RealCluster; rc != nil {
 		ao.ClusterBindAddr = rc.BindAddr
 		ao.ClusterPeerName = rc.PeerName
@@ -334,6 +347,9 @@ func Start(o Options) (*Instance, error) {
 		ao.ProbeInterval = rc.ProbeInterval
 		ao.SettleTimeout = rc.SettleTimeout
 		ao.TLSConfigFile = rc.TLSConfigFile
+		if rc.ReconnectInterval > 0 {
+			ao.ReconnectInterval = rc.ReconnectInterval
+		}
 	}
 	// app.New is serialised: concurrent construction of several instances in one process races inside
 	// go-openapi on the cached swagger document (outside every property; it would only add race-detector noise)
@@ -468,6 +484,12 @@ func (n *recNotifier) Notify(ctx context.Context, alerts ...*alert.Alert) (bool,
 	case <-time.After(time.Microsecond):
 	case <-ctx.Done(): // (a bubble's clock stops once its main goroutine has returned: never block past a Stop)
 	}
+	// a flush that has made hundreds of attempts is not backing off (the policy allows ~80 in an hour): stop
+	// feeding it outcomes, or a virtual-time run would spin through millions of them; the attempts recorded so
+	// far are what the checkers judge
+	if k := n.in.attemptsOfFlush(att); k > 300 {
+		out = Outcome{Kind: "hang"}
+	}
 	var retry bool
 	var err error
 	switch out.Kind {
@@ -513,6 +535,17 @@ func (n *recNotifier) Notify(ctx context.Context, alerts ...*alert.Alert) (bool,
 	att.End = time.Now()
 	n.in.Log.Add(Event{T: att.End, Kind: "attempt", Instance: n.in.Name, Attempt: att})
 	return retry, err
+}
+
+func (in *Instance) attemptsOfFlush(a *Attempt) int {
+	k := fmt.Sprintf("%s|%d|%s|%s/%d", a.AggrID, a.FlushID, a.Receiver, a.Integration, a.Idx)
+	in.flushMu.Lock()
+	defer in.flushMu.Unlock()
+	if in.flushAttempts == nil {
+		in.flushAttempts = map[string]int{}
+	}
+	in.flushAttempts[k]++
+	return in.flushAttempts[k]
 }
 
 // ---- HTTP client boundary ------------------------------------------------------------
